@@ -277,6 +277,15 @@ func BMFFShape(r *core.Rng) ([]byte, string) {
 	switch kind {
 	case 0:
 		out = Ftyp(r.PickStr("heic", "heix", "mif1", "avif"), 0, "mif1", r.PickStr("heic", "avif", "miaf")).Serialise(nil)
+		if r.Chance(1, 3) {
+			// a generic major brand with the deciding brand anywhere in a longer list of compatible
+			// brands: sniffing looks at the first 24 bytes only, whatever the reader has buffered
+			var cb []string
+			for k := r.Range(1, 7); k > 0; k-- {
+				cb = append(cb, r.PickStr("mif1", "miaf", "msf1", "MiHE", "heic", "heix", "hevc", "avif", "iso8"))
+			}
+			out = Ftyp(r.PickStr("mif1", "msf1", "mif1", "heic", "avif"), 0, cb...).Serialise(nil)
+		}
 		if r.Chance(1, 5) {
 			out = append(out, rawBox("free", r.Bytes(r.Range(0, 20)))...)
 		}
@@ -365,6 +374,11 @@ func TIFFShape(r *core.Rng) ([]byte, string) {
 				// SubIFDs as a table of 2..12 offsets: null offsets, offsets behind the reader, beyond
 				// the end, and real directories
 				k := r.Pick(2, 3, 6, 8, 9, 10, 12)
+				if r.Chance(1, 5) {
+					// hundreds of sub-directory offsets, all present (the count passes every 8-bit and
+					// pending-table boundary)
+					k = r.Pick(84, 85, 128, 255, 256, 257, 300, 384, 1000, 1024)
+				}
 				copy(e[2:], u16(4))
 				copy(e[4:], u32(uint32(k)))
 				copy(e[8:], u32(uint32(len(out))))
